@@ -309,7 +309,7 @@ def gen_cases(ctx, n, kinds=A.KINDS, big=False):
     for i in range(n):
         kind = kinds[i % len(kinds)]
         g = A.GEN[kind]
-        if ctx.rng.random() < (0.08 if big else 0.02):
+        if ctx.rng.random() < (0.04 if big else 0.02):
             cases.append((kind, A.gen_scaled(ctx.rng, kind)))      # the scale axis: 255 ... 65537 frames, 15 ... 257 items
             continue
         if big and kind in ("data3d", "emg", "force3d", "platdata") and ctx.rng.random() < 0.15:
